@@ -613,7 +613,7 @@ func firstLineErr(e error) string {
 func init() {
 	mc.Register(&mc.Check{
 		Prop:        "C15",
-		Rule:        "fault sequences: 9 dependency shapes (chain, diamond, group consumer, In-struct with key/optional, optional-but-registered dependencies, an optional-but-registered dependency whose own group members / keyed dependencies / their dependencies fail, two-output producer, interface-typed producer, result-object producer with an error return) x 5 lifetime patterns x every registration x invocation 1..3 x {returns error, returns nil, panics with string / error / struct / nil}; each execution: Build, scope, three attempts at the root service, a second scope, Close; oracle: no panic escapes, an error fault is reachable with errors.As (same pointer), a panic fault is a ConstructorPanicError carrying the value, retries without a pending fault succeed, lifetime / wiring / disposal oracles hold (nothing half-built is cached, nothing successfully built is rebuilt or leaked). API inputs: ~1,000 calls of every exported entry point with nil / typed-nil / zero / unregistered / mismatched / invalid arguments must not panic; Must* helpers panic iff the plain call errs. Error classes: 30 routes through Build / resolution / registration / module wrappers must be recognisable with errors.Is/As. distinct = canonical observation strings.",
+		Rule:        "fault sequences: 9 dependency shapes (chain, diamond, group consumer, In-struct with key/optional, optional-but-registered dependencies, an optional-but-registered dependency whose own group members / keyed dependencies / their dependencies fail, two-output producer, interface-typed producer, result-object producer with an error return) x 5 lifetime patterns x every registration x invocation 1..3 x {returns error, returns nil, panics with string / error / struct / nil}; each execution: Build, scope, three attempts at the root service, a second scope, Close; oracle: no panic escapes, an error fault is reachable with errors.As (same pointer), a panic fault is a ConstructorPanicError carrying the value, retries without a pending fault succeed, lifetime / wiring / disposal oracles hold (nothing half-built is cached, nothing successfully built is rebuilt or leaked). API inputs: ~1,000 calls of every exported entry point with nil / typed-nil / zero / unregistered / mismatched / invalid arguments must not panic; Must* helpers panic iff the plain call errs. Schedules: a resolution overlapping Close(scope|provider) whose late instance fails its own Close - the returned error must still satisfy errors.Is(disposed) (bound 2/3). Error classes: 30 routes through Build / resolution / registration / module wrappers must be recognisable with errors.Is/As. distinct = canonical observation strings.",
 		Assume:      []string{"keys are hashable (the property's precondition)", "a constructor returning a typed nil pointer is accepted as an instance: only 'no panic, consistent retry' is demanded there"},
 		MinOutcomes: 10,
 		Jobs: func(tier string) []mc.Job {
@@ -621,6 +621,31 @@ func init() {
 			for _, sh := range []string{"chain", "diamond", "group", "instruct", "optional", "optional-deep", "multi", "iface", "resobj-err"} {
 				sh := sh
 				jobs = append(jobs, mc.Job{Name: "c15-faults/" + sh, Weight: 3, Run: func(r *mc.Report) { c15Faults(r, sh) }})
+			}
+			// 'disposed' stays classifiable when the failure has two causes: a resolution overlapping Close
+			// whose late instance also fails its own Close (every schedule within the bound)
+			pb := 2
+			if tier == "thorough" {
+				pb = 3
+			}
+			for _, closer := range []string{"close-scope", "close-provider"} {
+				for _, op := range []string{"get-scoped", "get-transient", "get-group"} {
+					sc := c13Scenario(closer, op, false)
+					sc.Name = strings.Replace(sc.Name, "close-vs-op/", "c15-disposed-class/", 1)
+					sc.CloseFail = []string{"r1#1.0", "r1#2.0", "r2#1.0", "r2#2.0", "r3#1.0", "r4#1.0"}
+					jobs = append(jobs, mc.Job{Name: sc.Name, Weight: 20, Run: func(r *mc.Report) {
+						exploreScenario(r, sc, mc.Bounds{Preempt: pb}, func(e *Env, s *vsched.Sched) []Finding {
+							var keep []Finding
+							for _, f := range c13OverlapOracle(e, s) {
+								if f.F["clause"] == "overlap-wrong-error-class" {
+									f.F["clause"] = "disposed-not-classifiable"
+									keep = append(keep, f)
+								}
+							}
+							return keep
+						})
+					}})
+				}
 			}
 			return jobs
 		},
